@@ -66,9 +66,12 @@ LNonFin == {<<0, 0, 0, 32768, 32767>>, <<0, 0, 0, 32768, 65535>>, <<0, 0, 0, 491
 LG == IF Grid = "full" THEN LFinite \cup (IF NonFinite THEN LNonFin ELSE {}) ELSE {<<0, 0, 0, 49152, 49151>>} \cup (IF NonFinite THEN {<<1, 0, 0, 32768, 32767>>} ELSE {})
 (* strings: empty, NUL only, plain, no terminating NUL, embedded NULs, every escape, bytes >= 128, all 256 byte values *)
 AllBytes == [i \in 1..256 |-> i - 1] \o <<0>>
+(* an escape followed by a character that could continue it: NUL, byte 1, byte 8 (backspace), byte 255 followed by an  *)
+(* octal digit / hexadecimal digit ("v" NUL "7" LF must not read back as v BEL LF), a backslash followed by n, x, 0     *)
 StrFull == {<<>>, <<0>>, <<65, 0>>, <<65, 66>>, <<65, 0, 66, 0>>, <<0, 0>>, <<7, 8, 9, 10, 11, 12, 13, 27, 34, 39, 92, 63, 0>>, <<128, 255, 127, 0>>,
-            <<92, 48, 49, 50, 0>>, <<1, 49, 0>>, AllBytes}
-StrG == IF Grid = "full" THEN StrFull ELSE {<<34, 0, 255, 0>>}
+            <<92, 48, 49, 50, 0>>, <<1, 49, 0>>, AllBytes,
+            <<118, 0, 55, 10, 0>>, <<0, 48, 0, 49, 50, 0>>, <<1, 50, 2, 55, 55, 0>>, <<8, 56, 255, 51, 27, 102, 0>>, <<92, 110, 92, 120, 52, 49, 92, 0>>, <<0, 55>>}
+StrG == IF Grid = "full" THEN StrFull ELSE {<<34, 0, 55, 255, 49, 0>>}
 SizeG == IF Grid = "full" THEN {Zero, W(1), W(8), W(24), W(127), W(128), W(65536), <<65535, 65535, 0, 0>>} ELSE {W(128)}
 (* bss lengths stay below 2^63: nothing that large can be allocated, and the text reader takes the literal as signed *)
 LenG == IF Grid = "full" THEN {Zero, W(1), W(127), W(128), W(255), W(256), W(65536), <<0, 0, 1, 0>>, <<65535, 65535, 65535, 32767>>} ELSE {Zero, W(300)}
@@ -468,10 +471,17 @@ Spec == Init /\ [][Next]_cvars
 
 (* ------------------------------------------------------------------ big modules (C11: several compression buffers) *)
 (* one data item of n elements, chosen through the environment: C11_BIGN<i> (elements), C11_BIGP<i> (pattern: *)
-(* "low" = values below 128 (one byte per token), "rand" = incompressible, "rep" = period 7), C11_BIGT<i> (u8 | i64 | ld) *)
+(* "low" = values below 128 (one byte per token), "rand" / "rand7" = incompressible, "rep" = period 7, "mix"), C11_BIGT<i> *)
 EnvOr(k, d) == IF k \in DOMAIN IOEnv THEN IOEnv[k] ELSE d
-BigIdx == {i \in 1..8 : ("C11_BIGN" \o ToString(i)) \in DOMAIN IOEnv}
-BigVal(pat, i) == CASE pat = "low" -> (i * 7) % 128 [] pat = "rep" -> 200 + (i % 7) [] OTHER -> ((((i % 4093) * (i % 4099)) % 65521) * 31 + ((i % 65536) * 17)) % 256
+BigIdx == {i \in 1..12 : ("C11_BIGN" \o ToString(i)) \in DOMAIN IOEnv}
+BigRand(i) == ((((i % 4093) * (i % 4099)) % 65521) * 31 + ((i % 65536) * 17)) % 256
+(* "mix": MixHead incompressible one-byte tokens (more literal symbols than the compressor's 2^16-element pool holds in one  *)
+(* 2^18-byte buffer) followed by periodic two-byte tokens in the same buffer (references to symbols numbered after that) *)
+MixHead == 120000
+Sq(i, p) == ((i % p) * (i % p)) % p                       \* p < 46341: the square stays below 2^31
+BigRand7(i) == (Sq(i, 46337) + (3 * Sq(i, 46327)) + (7 * Sq(i, 40009))) % 128       \* close to 7 bits of entropy per value
+BigVal(pat, i) == CASE pat = "low" -> (i * 7) % 128 [] pat = "rep" -> 200 + (i % 7) [] pat = "rand7" -> BigRand7(i)
+                    [] pat = "mix" -> (IF i <= MixHead THEN BigRand7(i) ELSE 200 + (i % 7)) [] OTHER -> BigRand(i)
 BigEl(t, pat, i) ==
   CASE t = "u8" -> <<BigVal(pat, i)>>
     [] t = "i64" -> <<BigVal(pat, i), 65535, 65535, 32768 + BigVal(pat, i + 1)>>            \* negative: 8-byte tokens
